@@ -453,6 +453,8 @@ class Machine:
             r = self.cfg["r"]
             f = ns.fx.PrivValFxp if k == "priv" else ns.fx.PubValFxp
             if abs(v) < (1 << 52):
+                if v % (1 << r) == 0 and (v >> r) % 2 == 0:
+                    return f(v >> r)          # whole numbers are handed over as Python ints half of the time (2, not 2.0)
                 return f(float(Fraction(v, 1 << r)))
             return f(v, False)
         raise env.HarnessError("bad input type %r" % t)
